@@ -8,7 +8,7 @@ RULE = ('random operation sequences over 1–5 traced functions (two sharing a _
         'scripted dyadic clock, interleaved get_trace(average, max_history) queries and clear_trace(); '
         'every query result compared exactly with the Lean table model; non-trivial = ≥3 calls and ≥1 query '
         'with a window smaller than the history'
-        "; re-entrant call chains (recursion through the same or other traced functions) sent to the model's clock/stack machine as they are; durations with ~31 significant bits (exact in a double, not in a float32)")
+        "; re-entrant call chains (recursion through the same or other traced functions) sent to the model's clock/stack machine as they are; durations with ~31 significant bits (exact in a double, not in a float32); a single enormous sample followed by small ones with windows that exclude it")
 TRUSTED = [
     'Lean 4.33 kernel; axioms audited ⊆ {propext, Classical.choice, Quot.sound}',
     'hand-written model KV.Trace tied to kfac/tracing.py by this correspondence',
@@ -50,6 +50,10 @@ def gen_ops(rng, n):
                 # a duration with ~31 significant bits (more than a float32 holds, far fewer than a double): long calls
                 # timed to sub-millisecond resolution
                 dt = Fraction(rng.randrange(2**25, 2**30) * 2 + 1, 2**12)
+            elif rng.random() < 0.04:
+                # one enormous sample (a call that blocked): sums over windows that do not contain it stay exact, any
+                # running total that contains it has lost the small ones
+                dt = Fraction(2**60)
             ops.append(('c', rng.randrange(len(names)), dt, rng.random() < 0.15))
         elif r < 0.70:
             # re-entrant call: traced function chain[0] calls chain[1] calls ... before returning (recursion when an
@@ -160,6 +164,7 @@ def run_real(ops, names, ctx, case):
         for op in ops:
             if op[0] == 'c':
                 _, i, dt, raises = op
+                clock.t = Fraction(0)   # (time.time() may jump between calls; only differences inside a call matter)
                 clock.script = [Fraction(1, 8), dt]  # t0 read, then t1 = t0 + dt
                 arg = object()
                 try:
@@ -182,6 +187,7 @@ def run_real(ops, names, ctx, case):
                     ctx.fail('arguments were not passed through unchanged', case, 'args-changed')
             elif op[0] == 'n':
                 chain, incs = op[1], op[2]
+                clock.t = Fraction(0)
                 clock.script = [Fraction(1, 8)] + list(incs)
                 arg = object()
                 try:
